@@ -208,6 +208,7 @@ func runHashBytes(c *core.Ctx) {
 		default:
 			c.Pass(base+":expected-digest", hs.from.Pos(), "computed digest compared with the parsed request digest; the mismatch edge does not reach the blob creation")
 		}
+		runReferenceWins(c, r, hs, base)
 	}
 }
 
@@ -405,4 +406,134 @@ func init() {
 				}
 			}
 		}})
+}
+
+// referenceWins: in the push handler, on every path on which the reference failed the tag grammar, the
+// digest the computed digest is compared with is the parse of that reference — a query parameter must not
+// be able to replace it.
+type rwState struct {
+	nonTag bool
+	phis   [4]int8 // origin id currently flowing through each tracked φ (0 unknown)
+}
+
+func runReferenceWins(c *core.Ctx, r *Roles, hs *hashSite, base string) {
+	fn := hs.fn
+	// the comparison and its request-side operand
+	var cmpIf *ssa.If
+	var other ssa.Value
+	for _, b := range fn.Blocks {
+		ifi := an.BlockIf(b)
+		if ifi == nil {
+			continue
+		}
+		x, y, op, ok := an.CmpTest(ifi)
+		if !ok || (op != token.EQL && op != token.NEQ) {
+			continue
+		}
+		switch {
+		case an.Origin(x) == ssa.Value(hs.from):
+			cmpIf, other = ifi, y
+		case an.Origin(y) == ssa.Value(hs.from):
+			cmpIf, other = ifi, x
+		}
+	}
+	if cmpIf == nil {
+		return
+	}
+	// the grammar test of the reference and the parse of the same value
+	var refVal ssa.Value
+	var grammarIf *ssa.If
+	grammarTrue := 0
+	for _, b := range fn.Blocks {
+		ifi := an.BlockIf(b)
+		if ifi == nil {
+			continue
+		}
+		if call, trueSucc, ok := an.BoolCallTest(ifi); ok && an.IsMethod(call, "regexp", "Regexp", "MatchString") && an.IsGlobalLoad(call.Call.Args[0], r.TypesPath, "RefTagRE") {
+			grammarIf, grammarTrue, refVal = ifi, trueSucc, an.Origin(call.Call.Args[1])
+		}
+	}
+	if grammarIf == nil {
+		return
+	}
+	// origins: 1 = parse of the reference, 2 = anything else (query parameter, constant)
+	originID := func(v ssa.Value) int8 {
+		o := an.Origin(v)
+		if pc, idx := an.CallOf(o); pc != nil && idx == 0 && an.IsFunc(pc, digestPkg, "Parse") && an.Origin(pc.Call.Args[0]) == refVal {
+			return 1
+		}
+		return 2
+	}
+	// tracked φs: those reachable from the compared operand
+	var phis []*ssa.Phi
+	var collect func(v ssa.Value)
+	collect = func(v ssa.Value) {
+		if p, ok := v.(*ssa.Phi); ok {
+			for _, q := range phis {
+				if q == p {
+					return
+				}
+			}
+			if len(phis) < 4 {
+				phis = append(phis, p)
+				for _, e := range p.Edges {
+					collect(e)
+				}
+			}
+		}
+	}
+	collect(other)
+	phiIdx := func(v ssa.Value) int {
+		for i, p := range phis {
+			if ssa.Value(p) == v {
+				return i
+			}
+		}
+		return -1
+	}
+	bad := false
+	an.Paths(an.PathSpec[rwState]{Fn: fn, Init: rwState{},
+		Instr: func(s rwState, in ssa.Instruction) []rwState {
+			if in == ssa.Instruction(cmpIf) && s.nonTag {
+				var cur int8
+				if i := phiIdx(other); i >= 0 {
+					cur = s.phis[i]
+				} else {
+					cur = originID(other)
+				}
+				if cur != 1 {
+					bad = true
+				}
+			}
+			return []rwState{s}
+		},
+		Edge: func(s rwState, from *ssa.BasicBlock, succ int) (rwState, bool) {
+			if an.BlockIf(from) == grammarIf {
+				s.nonTag = succ != grammarTrue
+			}
+			tgt := from.Succs[succ]
+			predIdx := -1
+			for i, p := range tgt.Preds {
+				if p == from {
+					predIdx = i
+				}
+			}
+			if predIdx >= 0 {
+				old := s
+				for i, p := range phis {
+					if p.Block() != tgt {
+						continue
+					}
+					e := p.Edges[predIdx]
+					if j := phiIdx(e); j >= 0 {
+						s.phis[i] = old.phis[j]
+					} else {
+						s.phis[i] = originID(e)
+					}
+				}
+			}
+			return s, true
+		}})
+	c.SetTags(append(siteTags(c, r, fn), "expected-digest")...)
+	c.Check(!bad, base+":reference-digest-wins", hs.from.Pos(), "on every path on which the reference is not a tag, the digest the body is compared with is the parse of the reference itself: %v — otherwise a query parameter can make a push under digest A store and acknowledge content that hashes to B", !bad)
 }
